@@ -170,7 +170,11 @@ def analyse(ctx, res):
             elif k == "hang":
                 raw_unexplained.append((i, k, sl, "<hang>", [v]))
             elif k in ("crash", "panic"):
-                findings.append((k + ":" + hkey(cases[i]), "history `%s`: the VM %s" % (cases[i], "process died" if k == "crash" else "panicked"),
+                # a tokio-spawner VM evaluates the import tasks of one run_expr concurrently on the same
+                # Gluon thread (the C14 finding `async VM runs two module bodies on one thread`); key
+                # those crashes by that class so that they are recognised, other crashes by history
+                kkey = (k + ":async-vm-concurrent-imports") if cases[i].startswith("async|") else (k + ":" + hkey(cases[i]))
+                findings.append((kkey, "history `%s`: the VM %s" % (cases[i], "process died" if k == "crash" else "panicked"),
                                  {"history": cases[i]}, sl, il, {"harness": v}))
             elif k == "cycle-chain-wrong":
                 findings.append(("cycle-chain-wrong:" + hkey(cases[i]),
